@@ -185,3 +185,18 @@ Theorem C01_lex_wf_spec : forall g,
              end.
 Proof. exact lex_wf_spec. Qed.
 Print Assumptions C01_lex_wf_spec.
+
+(** (F) From the BYTES of the grammar file to the lexical part.  [Front/LexAst.v] is the model of the front end's handling of
+    the lexical part: the token list of the scanner model is cut into definitions, each body is parsed by a structurally
+    recursive pattern parser (no fuel), character literals are decoded by the [LitToRune] model, token numbers come from the
+    terminal-numbering model.  On every run its output on the bytes of each grammar file is compared with the AST gocc
+    parsed; composed with (E) this ties the whole path file -> DFA to the model.  The parser is a left inverse of the
+    printer on every well-formed pattern (brackets, ranges, references, non-ASCII characters included): no well-formed
+    pattern is mis-parsed, refused or confused with another. *)
+Require Gocc.Front.LexAst Gocc.Front.LexAstProofs.
+Theorem C01_front_end_pattern_parser_round_trip : forall regs (p : Pattern.pattern),
+  Gocc.Front.LexAstProofs.wf_pattern regs p = true ->
+  Gocc.Front.LexAst.parse_pattern Gocc.Front.Sem.shipped_ftypes Gocc.Front.LexAst.shipped_ltypes regs
+    (Gocc.Front.LexAstProofs.print_pattern_ftok regs p) = Some p.
+Proof. exact Gocc.Front.LexAstProofs.parse_pattern_print. Qed.
+Print Assumptions C01_front_end_pattern_parser_round_trip.
